@@ -11,6 +11,7 @@ import Reamber.Lemmas.TimingOrder
 import Reamber.Lemmas.TimingMono
 import Reamber.Lemmas.TimingRoundTrip
 import Reamber.Lemmas.TimingRoundTripErr
+import Reamber.Lemmas.TimingBeats
 import Reamber.Spec.Timing
 import Reamber.Generated.Consts
 
@@ -255,7 +256,140 @@ theorem snaps_offsets_err (N : Nat) (hN : 0 < N) (t0 : Rat) (cs : List BcSnap)
     rw [this, List.map_map]
     rfl
 
+/-! ### cumulative beats -/
+
+/-- **Cumulative beats (constant metronome).**  Under the hypotheses of `offsets_correct` and one metronome `M`
+for all changes: for on-grid times (any order, duplicates) and every sorting permutation numpy may choose in
+`snaps` (`σq`) and in `beats` (`σs`), `TimingMap.beats` returns the declarative beat position `beatAt` of every
+time, in query order — so the counts of two times differ by exactly their beat distance. -/
+theorem beats_exact (g : Array Rat) (hg : GridOK g) (t0 : Rat) (cs : List BcSnap)
+    (hwf : wfChanges cs = true) (hs : sortedSnaps cs = true) (h0 : firstAtZero cs = true)
+    (hgc : gridCompatible g.toList cs = true) (hm : metronomeOk cs = true)
+    (M : Rat) (hM : ∀ c ∈ cs, c.met = M)
+    (σq σs : List Nat) (ts : List Rat) (hσ : SortsAscR σq ts) (hts : ∀ t ∈ ts, OnGridAt g.toList t0 cs t) :
+    ∃ sn, snapsWith g σq (tmOf t0 cs) ts = .ok sn ∧
+      (SortsAscFwd σs sn → beatsWith g σq σs (tmOf t0 cs) ts = .ok (ts.map (beatAt t0 cs))) := by
+  have hb := bcsOfBco_rederive hg t0 cs hwf hs h0 hgc hm
+  cases cs with
+  | nil => simp [firstAtZero] at h0
+  | cons c rest =>
+    have wc := wfChanges_mem hwf (List.mem_cons_self)
+    have hMpos : 0 < M := by rw [← hM c List.mem_cons_self]; exact wc.met_pos
+    simp only [firstAtZero, Bool.and_eq_true, decide_eq_true_eq] at h0
+    have hB : (0 : Rat) = snapTotal M c.snap := by unfold snapTotal; rw [h0.1, h0.2]; simp
+    let F : Rat → Snap := fun t => ((snapAtAux g t0 c rest t).toOption).getD default
+    have hF : ∀ t ∈ ts, lookupSnap g ((c :: rest).zip (tmOf t0 (c :: rest))).reverse t = .ok (F t) ∧
+        NormSnap M (F t) ∧ snapTotal M (F t) = beatAt t0 (c :: rest) t := by
+      intro t ht
+      obtain ⟨hT, hgrid⟩ := hts t ht
+      obtain ⟨S, hS, hn, htot⟩ := snapAtAux_total hg t0 0 c rest t hwf hs hM hB hT hgrid
+      have hFt : F t = S := by simp [F, hS, Except.toOption]
+      refine ⟨?_, by rw [hFt]; exact hn, by rw [hFt]; exact htot⟩
+      simp only [tmOf, List.zip_cons_cons]
+      rw [lookupSnap_eq_snapAtAux g t0 c rest t hwf hs hT, hS, hFt]
+    have hsn := snapsWith_order g σq _ ts _ _ F hb hσ (fun t ht => (hF t ht).1)
+    refine ⟨ts.map F, hsn, ?_⟩
+    intro hσs
+    unfold beatsWith
+    cases hts' : ts with
+    | nil => simp
+    | cons t1 tl =>
+      rw [← hts']
+      have hne : ts.isEmpty = false := by rw [hts']; rfl
+      simp only [hne, Bool.false_eq_true, if_false, hsn, bind, Except.bind]
+      have hn : ∀ s ∈ ts.map F, NormSnap M s := by
+        intro s hs'
+        obtain ⟨t, ht, rfl⟩ := List.mem_map.mp hs'
+        exact (hF t ht).2.1
+      have := beats_of_snaps hMpos (ts.map F) σs hσs hn
+      simp only [bind, Except.bind] at this
+      refine this.trans ?_
+      rw [List.map_map]
+      congr 1
+      exact List.map_congr_left (fun t ht => (hF t ht).2.2)
+
+/-! ### the snapper, for the grid the code builds (`grid N`, every N ≥ 1) -/
+
+/-- **Snapping returns a nearest allowed fraction** (for every N ≥ 1 and every beat `x`). -/
+theorem snap_nearest (N : Nat) (hN : 0 < N) (x : Rat) :
+    IsNearest (grid N) (frac x) (snapOn (grid N).toArray x - (ffloor x : Rat)) := by
+  have hg := gridOK_grid hN
+  exact snapOn_nearest hg.asc x ⟨1, hg.one_mem, le_of_lt (frac_lt_one x)⟩
+
+/-- **Snapping is idempotent.** -/
+theorem snap_idem (N : Nat) (hN : 0 < N) (x : Rat) :
+    snapOn (grid N).toArray (snapOn (grid N).toArray x) = snapOn (grid N).toArray x :=
+  snapOn_idem (gridOK_grid hN) x
+
+/-- **Snapping moves a beat by at most 1/(2N)** — 1/192 beat for the code's N = 96. -/
+theorem snap_err (N : Nat) (hN : 0 < N) (x : Rat) : rabs (snapOn (grid N).toArray x - x) ≤ 1 / (2 * (N : Rat)) :=
+  snapOn_grid_err hN x
+
+/-- a beat is left alone exactly when its fractional part is an allowed fraction -/
+theorem snap_fixes_iff_on_grid (N : Nat) (hN : 0 < N) (x : Rat) :
+    snapOn (grid N).toArray x = x ↔ frac x ∈ grid N :=
+  snapOn_eq_self_iff (gridOK_grid hN) x
+
+/-- the code's constants: `Snapper()` snaps within 1/192 beat -/
+theorem snap_err_default (x : Rat) : rabs (snapOn defaultGrid x - x) ≤ 1 / 192 := by
+  have := snap_err defaultMaxDiv (by decide) x
+  have e : (1 : Rat) / (2 * ((defaultMaxDiv : Nat) : Rat)) = 1 / 192 := by decide +kernel
+  rw [e] at this
+  exact this
+
+/-! ### error branches and the known finding -/
+
+/-- `TimingMap.snaps`: with no tempo change at or before a time the model raises the `IndexError` class -/
+theorem lookupSnap_before_first (g : Array Rat) (rb : List (BcSnap × BcOff)) (t : Rat)
+    (h : ∀ p ∈ rb, p.2.offset > t) : lookupSnap g rb t = .error .index := by
+  unfold lookupSnap
+  have : rb.dropWhile (fun p => decide (p.2.offset > t)) = [] := by
+    induction rb with
+    | nil => rfl
+    | cons a tl ih =>
+      rw [List.dropWhile_cons, decide_eq_true (h a (by simp))]
+      exact ih (fun p hp => h p (by simp [hp]))
+  rw [this]
+
+/-- **D22 on the model**: without `gridCompatible` the statement of `offsets_correct` is false — a well-formed,
+strictly ascending list that starts at (0, 0) and keeps one metronome, whose second and third changes are a
+distance apart that is not a grid value, gives an `offsets` answer different from the integration (here for the
+grid `N = 4`, kernel-evaluated; the same happens on the real code with N = 96, witness in known_findings). -/
+theorem grid_incompatible_counterexample :
+    ∃ (N : Nat) (cs : List BcSnap) (q : Snap), 0 < N ∧ wfChanges cs = true ∧ strictSnaps cs = true ∧
+      firstAtZero cs = true ∧ metronomeOk cs = true ∧ queryOk cs q = true ∧ gridCompatible (grid N) cs = false ∧
+      (fromBcSnapNoReseat 0 cs).toOption.map (fun tm => (offsets (grid N).toArray tm [q]).toOption)
+        ≠ some (some [timeAt 0 cs q]) :=
+  ⟨4, [⟨120, 4, ⟨0, 0, some 4⟩⟩, ⟨60, 4, ⟨0, 1/8, some 4⟩⟩, ⟨240, 4, ⟨1, 1/3, some 4⟩⟩], ⟨3, 0, none⟩,
+    by decide +kernel⟩
+
 /-! non-vacuity: concrete instances of the hypotheses -/
+
+/-- `offsets_correct_bpmList` / `offsets_correct_any_order`: rows in shuffled order with a pure time-signature
+change (120 bpm 4/4 → 120 bpm 3/4) satisfy the hypotheses, and the model answers with `timeAt` -/
+example :
+    let cs : List BcSnap := [⟨120, 4, ⟨0, 0, some 4⟩⟩, ⟨120, 3, ⟨1, 0, some 3⟩⟩, ⟨200, 3, ⟨3, 0, some 3⟩⟩]
+    let qs : List Snap := [⟨2, 0, some 3⟩, ⟨0, 1, none⟩, ⟨4, 1/2, some 3⟩]
+    let rows : List (Rat × Rat × Rat) := [(5000, 200, 3), (0, 120, 4), (2000, 120, 3)]
+    wfChanges cs = true ∧ strictSnaps cs = true ∧ firstAtZero cs = true ∧ metronomeOk cs = true ∧
+      gridCompatible (grid 4) cs = true ∧ (∀ q ∈ qs, queryOk cs q = true) ∧
+      (rows.map fun r => (⟨r.2.1, r.2.2, r.1⟩ : BcOff)).Perm (tmOf 0 cs) ∧
+      offsets (grid 4).toArray (bpmListToTimingMap rows) qs = .ok (qs.map (timeAt 0 cs)) := by
+  refine ⟨by decide +kernel, by decide +kernel, by decide +kernel, by decide +kernel, by decide +kernel,
+    by decide +kernel, by decide +kernel, by decide +kernel⟩
+
+/-- `snaps_offsets_exact` / `beats_exact`: on-grid times in a two-tempo map (hypothesis `OnGridAt` through its
+evaluated form `timeInfo2`), and what the model computes there -/
+example :
+    let cs : List BcSnap := [⟨120, 4, ⟨0, 0, some 4⟩⟩, ⟨60, 4, ⟨1, 2, some 4⟩⟩]
+    let ts : List Rat := [4000, -250, 2750, 1000]
+    (∀ t ∈ ts, (timeInfo2 (grid 4) (-250) cs t).beforeFirst = false ∧ (timeInfo2 (grid 4) (-250) cs t).onGrid = true) ∧
+      ((fromBcSnapNoReseat (-250) cs).toOption.map fun tm =>
+        ((snaps (grid 4).toArray tm ts).toOption.map fun sn => (offsets (grid 4).toArray tm sn).toOption))
+        = some (some (some ts)) ∧
+      ((fromBcSnapNoReseat (-250) cs).toOption.map fun tm => (beats (grid 4).toArray tm ts).toOption)
+        = some (some (ts.map (beatAt (-250) cs))) := by
+  refine ⟨by decide +kernel, by decide +kernel, by decide +kernel⟩
 
 example : SortsAsc [1, 2, 0] [⟨2, 0, none⟩, ⟨0, 1/2, none⟩, ⟨1, 3, none⟩] := by
   refine ⟨by unfold IsPerm; decide, by decide, ?_⟩
